@@ -1239,8 +1239,9 @@ def compile_and_run(ck, tag, tus, run_envs=None, timeout=1800):
     """tus: {name: (source text, extra flags)}.  Compiles all in parallel, runs each (once per env in
     run_envs[name], default one plain run).  Returns {name: [(env, rc, stdout, stderr)]} with rc None
     when the compilation failed (stderr = compiler output)."""
-    import subprocess, os
+    import subprocess, os, time
     from vlib import BUILD, VERIF
+    running = {}
     d = os.path.join(BUILD, "tmp", "okl_exec_%s_%d" % (tag, os.getpid()))
     os.makedirs(d, exist_ok=True)
     emu = os.path.join(VERIF, "harness", "okl_emu")
@@ -1263,14 +1264,30 @@ def compile_and_run(ck, tag, tus, run_envs=None, timeout=1800):
             res[name] = [({}, None, "", se[-3000:])]
             continue
         res[name] = []
+        running[name] = []
         for env in (run_envs or {}).get(name, [{}]):
             e = dict(os.environ)
             e.update({"ASAN_OPTIONS": "detect_leaks=0:abort_on_error=0:exitcode=66", "UBSAN_OPTIONS": "halt_on_error=0:print_stacktrace=0"})
             e.update(env)
+            k = len(running[name])
+            fo, fe = open(os.path.join(d, "%s.%d.out" % (name, k)), "w"), open(os.path.join(d, "%s.%d.err" % (name, k)), "w")
+            running[name].append((env, subprocess.Popen([os.path.join(d, name)], stdout=fo, stderr=fe, env=e), fo, fe))
+            # at most 8 programs at a time
+            while sum(1 for rs in running.values() for _, q, _, _ in rs if q.poll() is None) >= 8:
+                time.sleep(0.05)
+    for name, rs in running.items():
+        for env, q, fo, fe in rs:
             try:
-                q = subprocess.run([os.path.join(d, name)], capture_output=True, text=True, timeout=timeout, env=e, errors="replace")
-                res[name].append((env, q.returncode, q.stdout, q.stderr[-3000:]))
+                q.wait(timeout=timeout)
+                rc = q.returncode
             except subprocess.TimeoutExpired:
-                res[name].append((env, -999, "", "run timeout"))
+                q.kill()
+                q.wait()
+                rc = -999
+            fo.close()
+            fe.close()
+            so = open(fo.name, errors="replace").read()
+            se = open(fe.name, errors="replace").read()[-3000:]
+            res[name].append((env, rc, so, se if rc != -999 else se + "\nrun timeout"))
     ck.cov["counters"]["exec_dir"] = d
     return res
